@@ -25,7 +25,7 @@ use altrios_core::consist::locomotive::locomotive_model::PowertrainType;
 use altrios_core::consist::locomotive::loco_sim::LocomotiveSimulationVec;
 use altrios_core::consist::LocoTrait;
 use altrios_core::prelude::*;
-use altrios_core::track::{import_locations, Location, LocationMap};
+use altrios_core::track::{import_locations, Location};
 use altrios_core::traits::*;
 use altrios_core::uc;
 use avh::build;
@@ -48,6 +48,22 @@ fn tmp_path(ext: &str) -> std::path::PathBuf {
     let _ = std::fs::create_dir_all(&d);
     let n = TMP_N.fetch_add(1, std::sync::atomic::Ordering::Relaxed);
     d.join(format!("o{n}.{ext}"))
+}
+/// removes temp dirs left behind by harness processes that no longer exist (killed by the watchdog mid-case)
+fn sweep_stale() {
+    static ONCE: OnceLock<()> = OnceLock::new();
+    ONCE.get_or_init(|| {
+        if let Ok(rd) = std::fs::read_dir(std::env::temp_dir()) {
+            for e in rd.flatten() {
+                let name = e.file_name().to_string_lossy().to_string();
+                if let Some(pid) = name.strip_prefix("avh-ckpt-") {
+                    if pid.parse::<u32>().is_ok() && !std::path::Path::new(&format!("/proc/{pid}")).exists() {
+                        let _ = std::fs::remove_dir_all(e.path());
+                    }
+                }
+            }
+        }
+    });
 }
 fn tmp_cleanup() {
     let d = std::env::temp_dir().join(format!("avh-ckpt-{}", std::process::id()));
@@ -108,7 +124,8 @@ fn save_load<T: SerdeAPI + DeserializeOwned + PartialEq>(x: &T, fmt: &str, via: 
     let t0 = tree(x);
     let mut ev = json!({"ev":"SaveLoad","fmt":fmt,"via":via,"ok":false,"stage":"","errclass":"","msg":"",
         "d0":dig(&t0),"d1":[0,0],"ok2":false,"d2":[0,0],"eq_orig":false,"eq_again":false,"load_ulps":INF,"again_ulps":INF,
-        "raw_ok":false,"skipped":count_skipped(&t0),"nonfinite":count_nonfinite(&t0),"locations":count_locations(&t0)});
+        "raw_ok":false,"skipped":count_skipped(&t0),"nonfinite":count_nonfinite(&t0),"locations":count_locations(&t0),
+        "colmis":count_colmis(&t0)});
     let x1 = match rt_once(x, fmt, via) {
         Ok(v) => v,
         Err((stage, e)) => {
@@ -191,6 +208,8 @@ enum Subj {
     Etn(EstTimeNet),
     Loc(Location),
     Tlp(TimedLinkPath),
+    Rv(RailVehicle),
+    Lp(LinkPath),
 }
 
 fn dem_at(desc: &Value, k: usize) -> i64 {
@@ -286,6 +305,8 @@ impl Subj {
             Subj::Etn(x) => tree(x),
             Subj::Loc(x) => tree(x),
             Subj::Tlp(x) => tree(x),
+            Subj::Rv(x) => tree(x),
+            Subj::Lp(x) => tree(x),
         }
     }
 
@@ -301,7 +322,14 @@ impl Subj {
             Subj::ConSim(x) => p(tree(x)),
             Subj::Sss(x) => p(tree(x)),
             Subj::Slts(x) => p(tree(x.as_ref())),
-            Subj::Tpc(x, _) | Subj::TpcFin(x) => tree(x),
+            // the public getters expose what the serialisation may not (is_finished, extent)
+            Subj::Tpc(x, _) | Subj::TpcFin(x) => Node::Seq(vec![
+                tree(x),
+                Node::B(x.is_finished()),
+                Node::F(fbits(x.offset_begin().value)),
+                Node::F(fbits(x.offset_end().value)),
+                tree(&x.link_idx_last().copied()),
+            ]),
             Subj::Tc(x) => Node::Seq(vec![
                 tree(x),
                 match x.make_train_params() {
@@ -354,7 +382,7 @@ impl Subj {
                 (Comp::Res, PowertrainType::BatteryElectricLoco(x)) => sl!(&mut x.res),
                 _ => json!({"ev":"SaveLoad","fmt":fmt,"via":via,"ok":false,"stage":"harness","errclass":"other",
                     "msg":"component not present","d0":[0,0],"d1":[0,0],"ok2":false,"d2":[0,0],"eq_orig":false,
-                    "eq_again":false,"load_ulps":INF,"again_ulps":INF,"raw_ok":false,"skipped":0,"nonfinite":0,"locations":0}),
+                    "eq_again":false,"load_ulps":INF,"again_ulps":INF,"raw_ok":false,"skipped":0,"nonfinite":0,"locations":0,"colmis":0}),
             },
             Subj::Loco(x) => sl!(x),
             Subj::Con(x) => sl!(x),
@@ -372,6 +400,8 @@ impl Subj {
             Subj::Etn(x) => sl!(x),
             Subj::Loc(x) => sl!(x),
             Subj::Tlp(x) => sl!(x),
+            Subj::Rv(x) => sl!(x),
+            Subj::Lp(x) => sl!(x),
         }
     }
 }
@@ -396,7 +426,6 @@ fn toy_net() -> anyhow::Result<Ctx> {
 
 struct Corridor {
     net: Network,
-    lm: LocationMap,
     slts: SpeedLimitTrainSim,
     etn: EstTimeNet,
     plan: Vec<LinkIdxTime>,
@@ -425,7 +454,7 @@ fn corridor() -> anyhow::Result<&'static Corridor> {
                     .into_iter()
                     .next()
                     .unwrap_or_default();
-                Ok(Corridor { net, lm, slts, etn, plan })
+                Ok(Corridor { net, slts, etn, plan })
             })()
             .map_err(|e| errtxt(&e))
         })
@@ -536,6 +565,13 @@ fn build_subject_uncached(desc: &Value) -> anyhow::Result<Subj> {
         "ReversibleEnergyStorage" => Subj::Comp(bel(&mut lp)?, Comp::Res),
         "Locomotive.conv" => Subj::Loco(conv(&mut lp)?),
         "Locomotive.bel" => Subj::Loco(bel(&mut lp)?),
+        "Locomotive.hybrid" => {
+            let mut l = Locomotive::default_hybrid_electric_loco();
+            l.set_save_interval(Some(1));
+            Subj::Loco(l)
+        }
+        "RailVehicle" => Subj::Rv(RailVehicle::from_file(build::resources_dir().join("rolling_stock/Manifest_Loaded.yaml"))?),
+        "LinkPath" => Subj::Lp(LinkPath(toy_net()?.route)),
         "Consist" => Subj::Con(toy_consist(&mut lp)?),
         "LocomotiveSimulation" | "LocomotiveSimulation.bel" => {
             let l = if kind.ends_with(".bel") { bel(&mut lp)? } else { conv(&mut lp)? };
@@ -657,6 +693,7 @@ fn build_subject_uncached(desc: &Value) -> anyhow::Result<Subj> {
 }
 
 fn exec(desc: &Value, tr: &mut Tracer) -> anyhow::Result<()> {
+    sweep_stale();
     let sched: Vec<String> = ga(desc, "sched").iter().map(|x| x.as_str().unwrap_or("").to_string()).collect();
     let nsteps = sched.iter().filter(|a| *a == "step").count();
     let pre = desc.get("pre").and_then(|x| x.as_u64()).unwrap_or(0) as usize;
@@ -715,7 +752,7 @@ fn exec(desc: &Value, tr: &mut Tracer) -> anyhow::Result<()> {
                 "mem" => "mem",
                 "file" => "file",
                 _ => {
-                    if (h0 >> 7).wrapping_add(idx as u64) % 4 == 0 {
+                    if (h0 >> 7).wrapping_add(idx as u64) % 16 == 0 {
                         "file"
                     } else {
                         "mem"
@@ -787,7 +824,8 @@ const REAL: [&str; 16] = [
 fn gen(seed: u64, n: usize, tier: &str) -> Vec<Value> {
     let mut out = vec![];
     // pinned: every kind, every format, default state and mid-run, through files
-    for kind in DEEP.iter().chain(SHALLOW.iter()) {
+    const EXTRA: [&str; 3] = ["Locomotive.hybrid", "RailVehicle", "LinkPath"];
+    for kind in DEEP.iter().chain(SHALLOW.iter()).chain(EXTRA.iter()) {
         for fmt in ["yaml", "json", "bin"] {
             out.push(json!({"src":"gen","kind":kind,"scale":"toy","via":"file",
                             "sched":[fmt,"step",fmt,"step","step",fmt,"step"]}));
@@ -857,6 +895,7 @@ fn prof(kind: &str) {
         }
         println!("sl {f:5}{:8.1} us", t.elapsed().as_micros() as f64 / n as f64);
     }
+    tmp_cleanup();
     let t = std::time::Instant::now();
     for k in 0..n {
         let _ = s.step(3 + k, &desc);
